@@ -97,3 +97,20 @@ pub fn from_cps(t: &str) -> String {
     if t == "-" { return String::new(); }
     t.split(',').filter_map(|x| x.parse::<u32>().ok().and_then(char::from_u32)).collect()
 }
+
+/// LFS's text encoding written down from its rules, with the specification's table (never the crate's): ASCII as is; a character
+/// the current codepage holds as its bytes; otherwise a caret, the letter of the first codepage in the order L G C E T B J H S K
+/// that holds it, and its bytes; a character no codepage holds as `?`
+pub fn spec_encode(s: &str) -> Vec<u8> {
+    let mut out = vec![];
+    let mut cur = 'L';
+    for c in s.chars() {
+        if c.is_ascii() { out.push(c as u8); continue; }
+        if let Some(b) = spec_enc(cur).and_then(|e| enc_char(e, c)) { out.extend_from_slice(&b); continue; }
+        match SPEC.iter().filter(|(l, _)| *l != cur).find_map(|(l, id)| enc_char(enc_by_ident(id).unwrap(), c).map(|b| (*l, b))) {
+            Some((l, b)) => { out.push(b'^'); out.push(l as u8); out.extend_from_slice(&b); cur = l; },
+            None => out.push(b'?'),
+        }
+    }
+    out
+}
